@@ -111,7 +111,9 @@ class Auto:
         if self.registered:
             return {"kind": "462"} if verb in ("PASS", "USER") else {"kind": "any"}
         if verb == "PASS":
-            self.pw = args[0].lstrip(":")
+            rest = line.split(" ", 1)[1] if " " in line else ""
+            # a trailing parameter keeps its blanks: "secret " is not "secret"
+            self.pw = rest[1:] if rest.startswith(":") else rest.split()[0]
         elif verb == "NICK":
             if args[0] in self.taken:
                 return {"kind": "433"}
@@ -355,6 +357,8 @@ def gate_sequences(cfgname, rng, quick):
     # orders, twice the same) at every position before the command that completes the registration; the last one counts
     users = CONFIGS[cfgname][1]
     pws = [p_ for p_ in (spw, "userpw" if users else None, "wrong") if p_]
+    # near misses: the right password followed by white space, sent as a trailing parameter
+    pws += [":" + p_ + tail for p_ in (spw, "userpw" if users else None) if p_ for tail in (" ", "\t")]
     if spw or users:
         tails = [["NICK gate1", "USER plain 0 * :P"], ["USER plain 0 * :P", "NICK gate1"]]
         if users:
